@@ -914,6 +914,61 @@ K_HARNESSES.append('k_pg_mode')
 K_HARNESSES.append('k_pg_mode_idle')
 
 
+def _k_shape(kind, shape, nw, sk, warm):
+    """a locking query whose RESULT is not an entity (a tuple, a single attribute, entity + attribute): the lock request needs the
+    transaction just like an entity query does"""
+    from pony.orm import db_session, select
+    db = _reset(kind)
+    T = db.T
+    marks = {}
+    from crosshair.tracers import NoTracing
+    with NoTracing():
+        with db_session:
+            if warm: T.get(id=1)                              # the session already has a connection (autocommit, no transaction)
+            n0 = rec.n
+            if shape == 0: q = select((x.id, x.a) for x in T if x.id == 1)
+            elif shape == 1: q = select(x.a for x in T if x.id == 1)
+            elif shape == 2: q = select((x, x.a) for x in T if x.id == 1)
+            else: q = select(x for x in T if x.id == 1)
+            try: q.for_update(nowait=nw, skip_locked=sk)[:]
+            except Exception: pass                            # (the fake answers with two columns whatever is selected; the journal is what is judged)
+            marks['lock'] = [e.n for e in rec.log if e.n > n0 and _is_select_T(e)][-1:]
+    return db, marks
+
+
+def _k_shape_judge(kind, shape, nw, sk, warm):
+    try:
+        db, m = _k_shape(kind, shape, nw, sk, warm)
+    except Exception:
+        F.reset_session_state(DBS[kind])
+        return False
+    why = []
+    LAST.clear(); LAST.update(why=why)
+    main = [e for e in rec.log if e.con is not None]
+    if not m['lock']: why.append('the locking query did not reach the database')
+    for n in m['lock']:
+        held, auto, in_tx, _ = rec.snap[n]
+        if kind == 'sqlite':
+            begin = lambda t: t.strip().upper() == 'BEGIN IMMEDIATE TRANSACTION'
+            if _tx_open_events(main, n, begin) is None or not in_tx: why.append('locking query outside an immediate transaction')
+        else:
+            if auto: why.append('SELECT ... FOR UPDATE sent with autocommit on (the lock is released at once)')
+            ev = [e for e in main if e.n == n][0]
+            if 'FOR UPDATE' not in (ev.detail or '').upper(): why.append('no FOR UPDATE clause')
+    return not why
+
+
+def k_lock_result_shape(pg: bool, shape: int, nw: bool, sk: bool, warm: bool) -> bool:
+    """
+    pre: 0 <= shape <= 3 and not (nw and sk)
+    post: _
+    """
+    kind = 'pg' if pg else 'sqlite'
+    shape = 0 if shape == 0 else 1 if shape == 1 else 2 if shape == 2 else 3
+    return ok(_k_shape_judge(kind, shape, True if nw else False, True if sk else False, True if warm else False))
+K_HARNESSES.append('k_lock_result_shape')
+
+
 def k_builder(nw: bool, sk: bool, lim: bool, dialect: int) -> bool:
     """
     pre: not (nw and sk)
